@@ -34,6 +34,8 @@ def dataset(name, fam):
         obs[rng.choice(days, 12, replace=False)] *= 4.0
     elif name == "mild":            # balance points near the ends of the temperature range
         obs = 20 + 0.9 * np.maximum(35 - T, 0) + 1.2 * np.maximum(T - 78, 0) + rng.normal(0, 0.8, days)
+    elif name == "levelshift":      # a persistent base-load step half way and little noise: residuals with very strong positive lag-1 autocorrelation
+        obs = 20 + 1.1 * np.maximum(55 - T, 0) + 40.0 * (np.arange(days) >= 180) + rng.normal(0, 0.5, days)
     elif name == "latecool":        # cooling only switches on during the 3 hottest days: the balance point is parked on its segment bound
         obs = 20 + 1.2 * np.maximum(50 - T, 0) + 6.0 * np.maximum(T - np.sort(T)[-4], 0) + rng.normal(0, 1.0, days)
     elif name == "lateheat":        # mirror image: heating only on the 3 coldest days
